@@ -167,7 +167,7 @@ class World:
 
     def health_fault(self, sock, kind):
         ctx = self.ctx()
-        self.health_log.append((self.seq, sock.target, kind, ctx.id))
+        self.health_log.append((self.seq, sock.target, kind, ctx.id, sock.id))
         ctx.fired.append(("health", 0, kind, sock.id))
         self.stats["fault:health-" + kind] += 1
         if sock.conn is not None:
@@ -423,20 +423,22 @@ class SimSocket:
             conn.broken = True
             _raise_fault(w, f, "pipe" if kind == "pipe" else "reset")
         h = node.health
-        if h == "reset":
-            w.health_fault(self, "reset")
+        if h in ("reset", "refuse"):
+            # a failing server also breaks the connections it had accepted earlier
+            w.health_fault(self, h)
             conn.broken = True
             raise ConnectionResetError(errno.ECONNRESET, "sim: connection reset by peer")
         ctx.sent += len(data)
         if h == "eof":
             w.health_fault(self, "eof")
+            conn.peer_closed = True
             return None
         if conn.peer_closed:
             w.health_fault(self, "peer-closed")   # the server had closed this connection
             return None
-        if h == "blackhole":
+        if h in ("blackhole", "connect_timeout"):
             return None   # bytes vanish
-        w.ok_log.append((w.seq, self.target, ctx.id))
+        w.ok_log.append((w.seq, self.target, ctx.id, self.id))
         node.feed(conn, bytes(data), ctx.id)
         return None
 
@@ -493,7 +495,7 @@ class SimSocket:
             if conn.peer_closed:
                 return b""
             h = conn.node.health
-            if h == "blackhole":
+            if h in ("blackhole", "connect_timeout"):
                 w.health_fault(self, "blackhole")
                 w.clock.advance(self.timeout or 0)
                 raise _real_socket.timeout("sim: recv timed out")
